@@ -144,6 +144,34 @@ class DKwModule(PKwModule):
     pass
 
 
+def _pool_body(x):
+    y = jnp.transpose(x, (0, 2, 3, 1))
+    m = jnp.mean(y, axis=(1, 2), keepdims=True)
+    return jnp.transpose(m, (0, 3, 1, 2))
+
+
+@onnx_function
+def f_pool_nchw(x):
+    return _pool_body(x)
+
+
+def p_pool_nchw(x):
+    return _pool_body(x)
+
+
+def _reshape_roundtrip_body(x):
+    return jnp.tanh(jax.nn.relu(x.reshape(6, 4))).reshape(2, 3, 4).reshape(6, 4)
+
+
+@onnx_function
+def f_reshape_roundtrip(x):
+    return _reshape_roundtrip_body(x)
+
+
+def p_reshape_roundtrip(x):
+    return _reshape_roundtrip_body(x)
+
+
 @onnx_function
 def f_with_flag(x, deterministic=True):
     return jnp.where(deterministic, x * 2.0, x * 0.0)
@@ -374,6 +402,11 @@ def programs(dec: bool) -> dict[str, dict]:
         P[f"kw_{tag}_values_differ"] = {"fn": (lambda KW: lambda x: KW(x, gain=3.0) - KW(x, gain=0.5) + KW(x, gain=2.0))(KW), "shapes": X}
         P[f"kw_{tag}_float_kwargs_reordered"] = {"fn": (lambda KW: lambda x: KW(x, gain=3.0) - KW(x, gain=None, mode=None) + KW(x, mode=None, gain=0.5))(KW), "shapes": X}
         P[f"kw_{tag}_all_none"] = {"fn": (lambda KW: lambda x: KW(x, gain=None, mode=None, axes=None, clip=None) * 2.0)(KW), "shapes": X}
+    PL = late("f_pool_nchw", "p_pool_nchw")
+    RR = late("f_reshape_roundtrip", "p_reshape_roundtrip")
+    P["optimizer_fold_inside_body_pool"] = {"fn": lambda x: PL(x) + 1.0, "shapes": [(2, 3, 4, 5)]}
+    P["optimizer_fold_inside_body_pool_twice"] = {"fn": lambda x: PL(x) * PL(x * 2.0), "shapes": [(2, 3, 4, 5)]}
+    P["optimizer_fold_inside_body_reshape_roundtrip"] = {"fn": lambda x: RR(x) - 1.0, "shapes": [(2, 3, 4)]}
     P["function_and_module_mixed"] = {"fn": lambda x: S(n1(x)) + a1(x), "shapes": X}
     P["layout_flags"] = {"fn": lambda x: S(x) + LEAF(x), "shapes": [(2, 3, 3, 3)], "kw": {"inputs_as_nchw": [0], "outputs_as_nchw": [0]}}
     return P
